@@ -43,6 +43,7 @@ type Event struct {
 	Ex   string
 	Path string
 	Size int64
+	Root string // ScanInput.Root of an "extract" event
 }
 
 // Rec collects events from extractors and the collector of one scan.
@@ -104,7 +105,7 @@ func (e *Ex) Extract(ctx context.Context, in *filesystem.ScanInput) (inventory.I
 		sz = in.Info.Size()
 	}
 	if e.Rec != nil {
-		e.Rec.Add(Event{Kind: "extract", Ex: e.N, Path: in.Path, Size: sz})
+		e.Rec.Add(Event{Kind: "extract", Ex: e.N, Path: in.Path, Size: sz, Root: in.Root})
 	}
 	if e.Hook != nil {
 		e.Hook(in)
